@@ -10,7 +10,7 @@ from .deb822model import Model, KEY_RE
 
 META = {
     'design_ref': 'DESIGN.md §5 C02',
-    'technique': "writer/reader agreement decided on automata: dump template extracted from _dump_format (marker-aware rstrip, strip-loss hazard), instantiated with the property's value grammar, split into reader lines and pushed through the reader's line classes, which are read off the paths of _internal_parser with locals substituted away (marked-language capture agreement for key and first line); _skip_useless_lines as a language-level filter per input type and position (bytes/str twins compared as languages); split_gpg_and_payload and the key side of validate_input decided on paths with locals substituted away (payload normalisation per append path, separator choice and accepted field names as languages); injectivity of the writer under constant substitutions on the value (automaton witness v, v.replace(old,new) both in the domain); who-may-call rule: the paragraph splitter only receives lines that went through the comment / blank-line filter",
+    'technique': "writer/reader agreement decided on automata: dump template extracted from _dump_format (marker-aware rstrip, strip-loss hazard), instantiated with the property's value grammar, split into reader lines and pushed through the reader's line classes, which are read off the paths of _internal_parser with locals substituted away (marked-language capture agreement for key and first line); _skip_useless_lines as a language-level filter per input type and position (bytes/str twins compared as languages); split_gpg_and_payload and the key side of validate_input decided on paths with locals substituted away (payload normalisation per append path, separator choice and accepted field names as languages); injectivity of the writer under constant substitutions on the value (automaton witness v, v.replace(old,new) both in the domain); who-may-call rule: the paragraph splitter only receives lines that went through the comment / blank-line filter; dataflow rule: the encoding that turns text lines into bytes reaches the decoder",
     'level_text': 'Static decision for all keys/values of the stated grammar: every dumped line is routed by the reader\'s '
                   'regex cascade to the intended branch, the key and the trimmed first line are captured exactly, continuation '
                   'lines are kept verbatim, no line is taken as separator/PGP/comment; both newline conventions.  Structural '
